@@ -608,10 +608,29 @@ func (u *Unit) callOpaque(ev *Ev, f Value, sig *types.Signature, args []Value, x
 	// remember arguments of the last call
 	st.lets["args:"+ft] = Value{K: vTuple, Tuple: args}
 	ord := u.callOrdinal(x, name)
+	if u.c != nil && u.c.IterFn == name && u.c.IterFn != "" && len(args) >= 1 {
+		// the unit's own contract promises a callback iteration: this is call number idx, with the promised argument
+		oev := u.specEv(u.entry.clone(), x.Pos(), u.name+" iterates")
+		oev.old = u.entry
+		idx := app("-", app("select", cur, ft), app("select", u.fam(u.entry, "G:calls", as), ft))
+		oev.binds["idx"] = intV(idx)
+		n := oev.expr(u.c.IterCount.Expr)
+		u.emit(st, "iter@"+ord+"/bound", app("<", idx, n.T), "call number idx of "+name+" is within the promised count "+u.c.IterCount.Text)
+		want := oev.expr(u.c.IterArg.Expr)
+		if want.K == vScalar && args[0].K == vScalar {
+			u.emit(st, "iter@"+ord+"/arg", app("=", args[0].T, want.T), "call number idx of "+name+" gets "+u.c.IterArg.Text)
+		} else {
+			u.subsetErr(x.Pos(), "iterates: non-scalar callback argument")
+		}
+	}
 	// call-site assertions written in the caller's contract
 	u.callSiteClauses(ev, ord, nil, args, nil)
 	nopanic := u.c != nil && (u.c.Flags["callbacks_nopanic"] || u.c.Flags["nopanic:"+name])
-	if !(u.c != nil && (u.c.Flags["callbacks_noheap"] || u.c.Flags["noheap:"+name])) {
+	if u.c != nil && len(u.c.CallMods[ord]) > 0 {
+		mev := u.specEv(st, x.Pos(), u.name+" call "+ord+" modifies")
+		u.havocModifies(mev, u.c.CallMods[ord], nil)
+		u.assumeNote("callback " + name + " at " + u.name + " " + ord + " is assumed to change at most the locations listed for it")
+	} else if !(u.c != nil && (u.c.Flags["callbacks_noheap"] || u.c.Flags["noheap:"+name])) {
 		u.havocHeap(st, "callback "+name)
 	}
 	u.assumeTypeInvs(st)
@@ -643,6 +662,13 @@ func (u *Unit) callOpaque(ev *Ev, f Value, sig *types.Signature, args []Value, x
 			u.typeFacts(st, rv)
 			res = append(res, rv)
 			u.assumeNote("function value " + name + " is deterministic (same arguments, same result)")
+			continue
+		}
+		if u.c != nil && u.c.Flags["freshfn:"+name] && u.sortOf(t) == SRef {
+			// a constructor callback (stated assumption): every call returns a newly allocated, non-nil object
+			r := u.allocRef(st, "fresh_"+name)
+			res = append(res, scalar(r, SRef, t))
+			u.assumeNote("function value " + name + " returns a newly allocated object on every call")
 			continue
 		}
 		res = append(res, u.freshValue(t, fmt.Sprintf("ret_%s_%d", name, i), st))
@@ -903,6 +929,8 @@ func (u *Unit) applyContract(ev *Ev, c *Contract, sig *types.Signature, recv *Va
 					lateMods = append(lateMods, m)
 				} else if m.Expr != nil && u.repHidden(sev, m.Expr) {
 					continue
+				} else if c.IterFn != "" && strings.ReplaceAll(m.Text, " ", "") == "calls("+c.IterFn+")" {
+					continue // accounted for exactly by the callback iteration
 				} else {
 					early = append(early, m)
 				}
@@ -1078,6 +1106,11 @@ func (u *Unit) havocModifies(sev *Ev, mods []Clause, c *Contract) {
 			if g, ok := u.eng.cs.Ghosts[id.Name]; ok {
 				gv := sev.ghostVar(g)
 				u.havocFam(st, "G:"+g.Name, gv.S)
+				continue
+			}
+			if id.Name == "calls" {
+				u.famSort("G:calls", arraySort(SRef, SInt))
+				u.havocFam(st, "G:calls", arraySort(SRef, SInt))
 				continue
 			}
 		}
@@ -1484,6 +1517,27 @@ func (u *Unit) callbackIteration(ev *Ev, sev *Ev, c *Contract, pnames []string, 
 		// opaque callback handed through: only the number of calls is known
 		if f.T != "" {
 			cur := u.fam(st, "G:calls", as)
+			if u.c != nil && u.c.IterFn != "" && !u.c.Flags["trusted"] && u.isOwnParam(f, u.c.IterFn) {
+				// the unit's own iterates clause is discharged through the callee's: the callee's calls continue the promised sequence
+				oev := u.specEv(u.entry.clone(), pos, u.name+" iterates")
+				oev.old = u.entry
+				base := app("-", app("select", cur, f.T), app("select", u.fam(u.entry, "G:calls", as), f.T))
+				promisedN := oev.expr(u.c.IterCount.Expr)
+				u.emit(st, "iter@"+ord+"/bound", app("<=", app("+", base, n), promisedN.T), "the calls made by "+shortKey(c.Key)+" stay within the promised count "+u.c.IterCount.Text)
+				j := u.fresh("iteridx", SInt)
+				sev2 := *sev
+				sev2.binds = copyBinds(sev.binds)
+				sev2.binds["idx"] = intV(j)
+				got := sev2.expr(c.IterArg.Expr)
+				oev.binds["idx"] = intV(app("+", base, j))
+				want := oev.expr(u.c.IterArg.Expr)
+				if got.K == vScalar && want.K == vScalar {
+					u.emit(st, "iter@"+ord+"/arg", implies(and(app("<=", "0", j), app("<", j, n)), app("=", got.T, want.T)),
+						"call idx of "+shortKey(c.Key)+" passes the argument promised for call base+idx: "+u.c.IterArg.Text)
+				} else {
+					u.subsetErr(pos, "iterates: non-scalar callback argument")
+				}
+			}
 			u.setFam(st, "G:calls", as, app("store", cur, f.T, app("+", app("select", cur, f.T), n)))
 		}
 		if !(u.c != nil && u.c.Flags["callbacks_noheap"]) {
@@ -1644,4 +1698,20 @@ func (u *Unit) sortSlice(ev *Ev, x *ast.CallExpr) bool {
 	}
 	u.eng.noteMeta(u, "sort.Slice permutes the slice; sorted ascending for the literal less function s[i] < s[j] (trusted library contract)")
 	return true
+}
+
+// isOwnParam: the value is the entry value of the unit's parameter with this name.
+func (u *Unit) isOwnParam(v Value, name string) bool {
+	if u.sig == nil {
+		return false
+	}
+	for i := 0; i < u.sig.Params().Len(); i++ {
+		p := u.sig.Params().At(i)
+		if p.Name() == name {
+			if ev, ok := u.entry.env[p]; ok && ev.K == vScalar && ev.T == v.T {
+				return true
+			}
+		}
+	}
+	return false
 }
